@@ -2,7 +2,7 @@
 from models.subscriber import SubscriberOracle
 from sim.core import RES
 from sim.single import PEERS
-from .common import COMPONENTS, ASSUMPTIONS, rng  # noqa: F401
+from .common import COMPONENTS, ASSUMPTIONS, rng, add_send_errors  # noqa: F401
 
 ID = "C14"
 LEVEL = "exploration"
@@ -119,6 +119,7 @@ def gen(seed, idx, tier):
             op["defer"] = r.randint(0, 4)  # this many loop iterations later: in the middle of the round, if it takes several
         ops.append(op)
     until = t + (2 * refresh + 0.5 if refresh else 1.0)
+    add_send_errors(cfg, seed, ID, idx)
     return {"engine": "single", "property": ID, "class": "random", "seed": seed, "cfg": cfg, "ops": ops, "until": round(until, 6)}
 
 
